@@ -226,15 +226,36 @@ func (w *zzWorld) zzPush(ref string, signer int, treeVariant int, force bool) *z
 	return &w.hist[len(w.hist)-1]
 }
 
+// zzPushOn is zzPush with an explicit parent commit (nil: a root commit).
+func (w *zzWorld) zzPushOn(ref string, signer int, treeVariant int, parent githash.Hash) *zzEvent {
+	var parents []githash.Hash
+	if parent != nil {
+		parents = []githash.Hash{parent}
+	}
+	commit := w.S.RawCommit(ref, w.zzTree(treeVariant), parents, "change "+strconv.Itoa(treeVariant), zzmem.Unsigned)
+	w.tips[ref] = commit
+	w.S.Signer = signer
+	zzMust(rsl.NewReferenceEntry(ref, commit).Commit(w.S, true))
+	w.hist = append(w.hist, zzEvent{kind: "push", ref: ref, signer: signer, policy: len(w.policies) - 1,
+		entryID: w.S.Ref(rsl.Ref), target: commit, tree: w.zzTree(treeVariant)})
+	return &w.hist[len(w.hist)-1]
+}
+
 // zzSkip records an annotation revoking the listed history events.
-func (w *zzWorld) zzSkip(signer int, events ...int) {
+func (w *zzWorld) zzSkip(signer int, events ...int) { w.zzAnnotate(signer, true, events...) }
+
+// zzAnnotate records an annotation on the listed history events; only a skip
+// annotation revokes them.
+func (w *zzWorld) zzAnnotate(signer int, skip bool, events ...int) {
 	var ids []githash.Hash
 	for _, e := range events {
 		ids = append(ids, w.hist[e].entryID)
-		w.hist[e].skipped = true
+		if skip {
+			w.hist[e].skipped = true
+		}
 	}
 	w.S.Signer = signer
-	zzMust(rsl.NewAnnotationEntry(ids, true, "revoked").Commit(w.S, true))
+	zzMust(rsl.NewAnnotationEntry(ids, skip, "note").Commit(w.S, true))
 	w.hist = append(w.hist, zzEvent{kind: "skip", policy: len(w.policies) - 1, entryID: w.S.Ref(rsl.Ref)})
 }
 
